@@ -55,6 +55,9 @@ TRANSPARENT = {
     "std::option::Option::<T>::as_deref": 0,
     "std::option::Option::<T>::as_deref_mut": 0,
     "std::result::Result::<T, E>::as_ref": 0,
+    # mem::take(&mut x) / mem::replace(&mut x, y) hand out the value x held
+    "std::mem::take": 0,
+    "std::mem::replace": 0,
 }
 MAX_INLINE_DEPTH = 3
 CLONE = {"std::clone::Clone::clone", "std::borrow::ToOwned::to_owned", "std::string::ToString::to_string",
